@@ -66,6 +66,8 @@ const (
 	intLateChild
 	intPut
 	intFetch
+	intShutdown // the deletion manager is closed while the worker runs (its context is cancelled), restart follows
+	intCrash    // the process dies right after DeleteTree removed the storage, before the status is written; restart follows
 )
 
 func genOp(rt *rapid.T, async bool) Op {
@@ -91,7 +93,7 @@ func genOp(rt *rapid.T, async bool) Op {
 	case k < 32:
 		return Op{K: "fetch", A: sel.Draw(rt, "obj"), C: pref.Draw(rt, "pref")}
 	case k < 36:
-		return Op{K: "worker", A: rapid.IntRange(0, 15).Draw(rt, "perm"), B: rapid.SampledFrom([]int{0, 0, 1, 1, 2, 2, 3, 4}).Draw(rt, "interrupt"), C: rapid.IntRange(0, 7).Draw(rt, "target")}
+		return Op{K: "worker", A: rapid.IntRange(0, 15).Draw(rt, "perm"), B: rapid.SampledFrom([]int{0, 0, 1, 1, 1, 2, 2, 2, 3, 4, 5, 6}).Draw(rt, "interrupt"), C: rapid.IntRange(0, 15).Draw(rt, "target")}
 	case k < 39:
 		return Op{K: "restart", A: rapid.SampledFrom([]int{0, 0, 1}).Draw(rt, "workerAtStart"), B: rapid.IntRange(0, 15).Draw(rt, "perm")}
 	default:
@@ -585,23 +587,50 @@ func (c *checker) opWorker(op Op, step string) error {
 			}
 		}
 	}
+	// C: low three bits pick the target, bit 3 moves the interrupt from "before the tree
+	// manager acts" to "right before the successful call returns to the worker"
 	target := ""
 	if op.B != intNone && len(cand) > 0 {
-		target = cand[op.C%len(cand)]
+		target = cand[(op.C&7)%len(cand)]
 	}
+	after := op.C&8 != 0 && op.B != intShutdown && op.B != intCrash
 	fired := false
-	l.TM.OnCallout = func(call, id string) {
+	hook := func(call, id string) {
 		if fired || id != target || c.intErr != nil {
 			return
 		}
 		fired = true
-		c.w.Logf("  worker call-out %s(%s): interrupt %d", call, c.name(id), op.B)
-		c.intErr = c.interrupt(op.B, call, id, step+" [interrupt at "+call+"]")
+		when := "before"
+		if after {
+			when = "after"
+		}
+		c.w.Logf("  worker call-out %s(%s): interrupt %d %s the tree manager acts", call, c.name(id), op.B, when)
+		c.intErr = c.interrupt(op.B, call, id, step+" [interrupt "+when+" "+call+"]")
+		if after && c.intErr == nil {
+			c.classes["interrupt-after-"+call] = true
+		}
+	}
+	if after {
+		l.TM.AfterCallout = hook
+	} else {
+		l.TM.OnCallout = hook
+	}
+	if op.B == intCrash {
+		l.TM.CrashAfterDelete = target
 	}
 	l.RunWorker(op.A)
-	l.TM.OnCallout = nil
+	l.TM.OnCallout, l.TM.AfterCallout = nil, nil
 	if c.intErr != nil {
 		return c.intErr
+	}
+	if l.TM.Crashed {
+		// the process is gone: whatever the worker left half-done must be repaired by the next start
+		if op.B == intCrash {
+			c.classes["crash-between-storage-deletion-and-status"] = true
+		} else {
+			c.classes["shutdown-during-worker-run"] = true
+		}
+		return c.opRestart(Op{K: "restart"}, step+" [restart after the worker was cut short]")
 	}
 	if len(queued) > 0 && op.K == "worker" {
 		c.classes["worker-run-with-queue"] = true
@@ -672,6 +701,8 @@ func (c *checker) interrupt(kind int, call, id, step string) error {
 			return nil
 		}
 		return c.opFetch(o, step)
+	case intShutdown:
+		c.l.TM.Shutdown()
 	}
 	return nil
 }
